@@ -13,6 +13,10 @@ def build(env, sc):
     order = cfg["order"]
     w = cfg["w"]
     kind = sc["sched"]
+    if kind in ("SP", "WFQ", "DRR") and sc.get("wscale"):
+        # "wscale": e -- every weight / priority multiplied by 2**e (exact): fractional or huge weights.  Only ratios and
+        # order matter to SP and DRR; WFQ's virtual time and stamps are 2**-e times as large (recorded scaled back)
+        w = [x * 2.0 ** sc["wscale"] for x in w]
     ident = all(f2c[i] == i + 1 for i in range(len(f2c)))
     fmap = (lambda fid: f2c[fid] - 1)
     if kind == "SP":
@@ -88,8 +92,9 @@ def run_one(sc):
             d["cr"] = [ex(s.deficit.get(c, -1)) for c in range(nc)]
         if k is not None:
             if kind == "WFQ":
-                d["fk"] = ex(s.finish_times[k] / ts) if k in s.finish_times else -1
-                d["v"] = ex(s.vtime / ts)
+                wsc = 2.0 ** sc.get("wscale", 0)
+                d["fk"] = ex(s.finish_times[k] * wsc / ts) if k in s.finish_times else -1
+                d["v"] = ex(s.vtime * wsc / ts)
             elif kind == "VC":
                 d["fk"] = ex((s.aux_vc[k] - t0) / ts) if k in s.aux_vc else -1     # auxVC is an instant
         return d
